@@ -1001,7 +1001,7 @@ func (g cuGen) traffic() interface{} {
 func (g cuGen) kvMatches(query bool) []interface{} {
 	l := []interface{}{}
 	for i, k := 0, 1+g.n(2); i < k; i++ {
-		m := J{"name": g.pick("user-agent", "x-canary", "user", ""), "value": g.pick("pc", "true", ".*demo", "")}
+		m := J{"name": g.pick("user-agent", "x-canary", "user", "", "X-Canary-User"), "value": g.pick("pc", "true", ".*demo", "")}
 		switch r := g.n(20); {
 		case r < 10:
 			m["type"] = "Exact"
